@@ -1,8 +1,13 @@
+#[cfg(not(pendulum_project_ntpd_rs_verif))]
 use std::{
     fs::{File, OpenOptions},
     os::unix::prelude::{OpenOptionsExt, PermissionsExt},
     sync::Arc,
 };
+#[cfg(pendulum_project_ntpd_rs_verif)]
+use std::{os::unix::prelude::PermissionsExt, sync::Arc};
+#[cfg(pendulum_project_ntpd_rs_verif)]
+use super::verif::keys::{File, OpenOptions};
 
 use ntp_proto::{KeySet, KeySetProvider};
 use tokio::sync::watch;
@@ -85,7 +90,10 @@ pub async fn spawn(config: KeysetConfig) -> watch::Receiver<Arc<KeySet>> {
             if tx.send(provider.get()).is_err() {
                 break;
             }
+            #[cfg(not(pendulum_project_ntpd_rs_verif))]
             std::thread::sleep(next_interval);
+            #[cfg(pendulum_project_ntpd_rs_verif)]
+            super::verif::keys::sleep(next_interval);
             next_interval = std::time::Duration::from_secs(config.key_rotation_interval as _);
             provider.rotate();
         }
